@@ -39,6 +39,9 @@ pub enum InRef {
     G(usize),
     /// output `o` of scenario transaction `t`
     T(usize, usize),
+    /// the cellbase output of the main-chain block this many blocks below the tip at the moment the
+    /// transaction is first materialised (nothing while that block has no cellbase output)
+    C(u64),
 }
 
 #[derive(Clone, Debug, Serialize, Deserialize)]
@@ -676,6 +679,22 @@ pub fn generate(seed: u64, prop_name: &str) -> PoolScenario {
             }
         }
     }
+    if (prop == "C12" || prop == "C13") && !c13_full {
+        // transactions that spend the reward cell of a recent block (cellbase maturity is zero in these
+        // runs): a reorganisation that detaches that block takes the cell away for good — the cellbase
+        // cannot come back through the pool. A stream of their own; submitted in the later part of the run.
+        let mut rc = Rng::new(seed ^ 0xC12_CB05);
+        if rc.chance(1, 2) {
+            for _ in 0..rc.urange(1, 3) {
+                let t = txs.len();
+                txs.push(TxSpec { inputs: vec![InRef::C(rc.range(0, 3))], outputs: rc.urange(1, 2), fee: rc.range(800, 4_000), dep: None, salt: rc.below(1 << 30), hdep: None, since: None });
+                for _ in 0..rc.urange(2, 4) {
+                    let at = ops.len() / 3 + rc.idx((ops.len() - ops.len() / 3).max(1));
+                    ops.insert(at.min(ops.len()), POp::Submit { t, remote: false });
+                }
+            }
+        }
+    }
     PoolScenario { engine: "simnode".into(), kind: "pool".into(), prop: prop_name.into(), seed, cfg, pool, txs, ops, verify_cache_cold: false, store_caches: None }
 }
 
@@ -979,6 +998,19 @@ impl PoolExec {
                 InRef::G(k) => {
                     let op = self.genesis_outs[*k % self.genesis_outs.len()].clone();
                     let cap = self.w.st(0).cells.get(&op)?.capacity();
+                    (op, cap)
+                }
+                InRef::C(back) => {
+                    let st = self.w.st(self.tip_idx);
+                    let tipn = st.chain.len() - 1;
+                    let n = tipn.checked_sub(*back as usize).filter(|n| *n > 0)?;
+                    let cb = self.w.blocks[st.chain[n]].view.transactions()[0].clone();
+                    let out = cb.outputs().get(0)?;
+                    if out.lock().code_hash() != self.w.code_hash {
+                        return None;
+                    }
+                    let op = OutPoint::new(cb.hash(), 0);
+                    let cap = st.cells.get(&op)?.capacity();
                     (op, cap)
                 }
                 InRef::T(tt, oo) => {
